@@ -179,6 +179,153 @@ impl<M: Hash + Clone + Eq, A: Ord + Hash + Clone> CmRDT for Orswot<M, A> {
 //@end
 }
 
+/// per-actor merge of the witness counters of one member: a counter survives when both sides
+/// hold it, or one side holds it and the other side has not seen it (its clock does not cover it)
+pub open spec fn mrg(es: u64, eo: u64, cs: u64, co: u64) -> u64 {
+    max64(max64(if eo == es { es } else { 0 }, if eo > cs { eo } else { 0 }), if es > co { es } else { 0 })
+}
+
+impl<M: Hash + Eq + Clone, A: Ord + Hash + Clone> CvRDT for Orswot<M, A> {
+    type Validation = Validation<M, A>;
+    open spec fn cv_inv(&self) -> bool { params_ok::<M, A>() && self.wf() }
+    open spec fn cv_pre(&self, other: &Self) -> bool { true }
+
+    #[verifier::external_body]
+    fn validate_merge(&self, other: &Self) -> Result<(), Self::Validation> { unimplemented!() }
+
+//@extract fn src/orswot.rs "CvRDT for Orswot" merge
+    fn merge(&mut self, other: Self)
+    //@ ensures
+    //@     is_join(final(self).cl(), old(self).cl(), other.cl()),
+    //@     // a witness dot survives the merge iff the per-actor rule `mrg` keeps it and no pending remove of either side covers it
+    //@     forall|m: M, a: A| #![trigger cnt(final(self).ec(m), a)] cnt(final(self).ec(m), a) == ({
+    //@         let x = mrg(cnt(old(self).ec(m), a), cnt(other.ec(m), a), cnt(old(self).cl(), a), cnt(other.cl(), a));
+    //@         if covered_by(old(self).defs(), m, a, x) || covered_by(other.defs(), m, a, x) { 0 } else { x } }),
+    //@     // pending removes of both sides travel with the merge, as long as the merged clock does not cover them
+    //@     forall|k: VClock<A>| #![trigger final(self).defs().contains_key(k)] final(self).defs().contains_key(k) <==> ((old(self).defs().contains_key(k) || other.defs().contains_key(k)) && !vle(k@, final(self).cl())),
+    //@     forall|k: VClock<A>| #![trigger final(self).defs()[k]] final(self).defs().contains_key(k) ==> final(self).defs()[k]@ == old(self).dm(k).union(other.dm(k)),
+    {
+        //@ proof { assert(old(self).wf() && other.wf() && params_ok::<M, A>()); }
+        self.entries = /*@ shim_hashmap_filter_map_collect( @*/ mem::take(&mut self.entries)
+            /*@<*/ .into_iter()
+            .filter_map( /*@>*/ /*@ , @*/ /*@<*/ |(entry, mut clock)| /*@>*/ /*@ |p: (M, VClock<A>)| -> (o: Option<(M, VClock<A>)>)
+                requires actor_ok::<A>(), key_ok::<M>(), nz(p.1@), nz(other.clock@),
+                ensures keep1_ok(p, o, other.entries@.contains_key(p.0), other.clock@)
+            { let (entry, mut clock) = p; @*/ {
+                if !other.entries.contains_key(&entry) {
+                    // other doesn't contain this entry because it:
+                    //  1. has seen it and dropped it
+                    //  2. hasn't seen it
+                    //@ proof { lemma_pcmp_code(other.clock@, clock@); }
+                    if other.clock >= clock {
+                        // other has seen this entry and dropped it
+                        None
+                    } else {
+                        // the other map has not seen this version of this
+                        // entry, so add it. But first, we have to remove any
+                        // information that may have been known at some point
+                        // by the other map about this key and was removed.
+                        clock.reset_remove(&other.clock);
+                        Some((entry, clock))
+                    }
+                } else {
+                    Some((entry, clock))
+                }
+            } /*@ } @*/ )
+            /*@<*/ .collect() /*@>*/ ;
+        //@ let ghost s1 = *self;
+        //@ proof { lemma_merge_pass1(*old(self), other, s1); }
+
+        //@ let ov = shim_hashmap_into_vec(other.entries);
+        //@ let ghost ovs = ov@;
+        for (entry, mut clock) in /*@ it: ov @*/ /*@<*/ other.entries /*@>*/
+        //@ invariant
+        //@     params_ok::<M, A>(), old(self).wf(), other.wf(), self.wf(), it.seq() == ovs,
+        //@     self.cl() == old(self).cl(), self.defs() == old(self).defs(),
+        //@     forall|i: int| 0 <= i < ovs.len() ==> other.ents().contains_key((#[trigger] ovs[i]).0) && other.ents()[ovs[i].0] == ovs[i].1,
+        //@     forall|i: int, j: int| 0 <= i < j < ovs.len() ==> (#[trigger] ovs[i]).0 != (#[trigger] ovs[j]).0,
+        //@     forall|k: M| other.ents().contains_key(k) ==> exists|i: int| 0 <= i < ovs.len() && (#[trigger] ovs[i]).0 == k,
+        //@     forall|m: M| other.ents().contains_key(m) ==> #[trigger] s1.ec(m) == old(self).ec(m),
+        //@     // members of `other` already visited are final; the rest is still as pass 1 left it
+        //@     forall|m: M, a: A| #![trigger cnt(self.ec(m), a)] cnt(self.ec(m), a) == (
+        //@         if exists|j: int| 0 <= j < it.index@ && (#[trigger] ovs[j]).0 == m { mrg(cnt(old(self).ec(m), a), cnt(other.ec(m), a), cnt(old(self).cl(), a), cnt(other.cl(), a)) }
+        //@         else { cnt(s1.ec(m), a) }),
+        {
+            //@ let ghost pre = *self;
+            //@ let ghost idx = it.index@;
+            //@ proof { assert(other.ents().contains_key(ovs[idx].0)); assert(entry == ovs[idx].0 && clock == ovs[idx].1); assert(nz(clock@) && clock@ != SMap::<A, u64>::empty()); }
+            if let Some(our_clock) = self.entries.get_mut(&entry) {
+                // SUBTLE: this entry is present in both orswots, BUT that doesn't mean we
+                // shouldn't drop it!
+                // Perfectly possible that an item in both sets should be dropped
+                //@ let ghost oc0 = our_clock@;
+                //@ proof { assert(pre.ents().contains_key(entry) && oc0 == pre.ents()[entry]@ && nz(oc0)); }
+                let mut common = VClock::intersection(&clock, our_clock);
+                //@ proof { c10_vsub_nz(clock@, self.clock@); c10_vsub_nz(oc0, other.clock@); }
+                common.merge(clock.clone_without(&self.clock));
+                common.merge(our_clock.clone_without(&other.clock));
+                //@ proof { lemma_common(common@, clock@, oc0, self.clock@, other.clock@); }
+                if common.is_empty() {
+                    // both maps had seen each others entry and removed them
+                    self.entries.remove(&entry).unwrap();
+                } else {
+                    // we should not drop, as there is information still tracked in
+                    // the common clock.
+                    *our_clock = common;
+                }
+            } else {
+                // we don't have this entry, is it because we:
+                //  1. have seen it and dropped it
+                //  2. have not seen it
+                //@ proof { lemma_pcmp_code(self.clock@, clock@); }
+                if self.clock >= clock {
+                    // We've seen this entry and dropped it, we won't add it back
+                } else {
+                    // We have not seen this version of this entry, so we add it.
+                    // but first, we have to remove the information on this entry
+                    // that we have seen and deleted
+                    //@ let ghost eo = clock@;
+                    clock.reset_remove(&self.clock);
+                    //@ proof { c10_vsub_nz(eo, self.clock@); let a = choose|a: A| !(cnt(eo, a) <= cnt(self.clock@, a)); assert(vsub(eo, self.clock@).contains_key(a)); }
+                    self.entries.insert(entry, clock);
+                }
+            }
+            //@ proof { lemma_merge_pass2_step(*old(self), other, s1, pre, *self, ovs, idx); }
+        }
+        //@ let ghost s2 = *self;
+        //@ proof { lemma_merge_pass2_done(*old(self), other, s1, s2, ovs); }
+
+        // merge deferred removals
+        //@ let dv = shim_hashmap_into_vec(other.deferred);
+        //@ let ghost dvs = dv@;
+        for (rm_clock, members) in /*@ it: dv @*/ /*@<*/ other.deferred /*@>*/
+        //@ invariant
+        //@     params_ok::<M, A>(), old(self).wf(), other.wf(), self.wf(), it.seq() == dvs, self.cl() == old(self).cl(),
+        //@     forall|i: int| 0 <= i < dvs.len() ==> other.defs().contains_key((#[trigger] dvs[i]).0) && other.defs()[dvs[i].0] == dvs[i].1,
+        //@     forall|i: int, j: int| 0 <= i < j < dvs.len() ==> (#[trigger] dvs[i]).0 != (#[trigger] dvs[j]).0,
+        //@     forall|k: VClock<A>| other.defs().contains_key(k) ==> exists|i: int| 0 <= i < dvs.len() && (#[trigger] dvs[i]).0 == k,
+        //@     forall|m: M, a: A| #![trigger cnt(self.ec(m), a)] cnt(self.ec(m), a) == (if covered_upto(dvs, it.index@, m, a, cnt(s2.ec(m), a)) { 0 } else { cnt(s2.ec(m), a) }),
+        //@     forall|k: VClock<A>| #![trigger self.defs().contains_key(k)] self.defs().contains_key(k) <==> (old(self).defs().contains_key(k) || exists|j: int| 0 <= j < it.index@ && (#[trigger] dvs[j]).0 == k && !vle(k@, self.cl())),
+        //@     forall|k: VClock<A>| #![trigger self.dm(k)] self.dm(k) == old(self).dm(k).union(if exists|j: int| 0 <= j < it.index@ && (#[trigger] dvs[j]).0 == k && !vle(k@, self.cl()) { other.dm(k) } else { SSet::<M>::empty() }),
+        {
+            //@ let ghost pre = *self;
+            //@ proof { assert(rm_clock == dvs[it.index@].0); assert(other.deferred@.contains_key(rm_clock)); assert(nz(rm_clock@)); }
+            self.apply_rm(members, rm_clock);
+            //@ proof { lemma_merge_pass3_step(*old(self), other, s2, pre, *self, dvs, it.index@); }
+        }
+        //@ let ghost s3 = *self;
+
+        //@ proof { assert(self.clock.cv_inv() && other.clock.cv_inv()); }
+        self.clock.merge(other.clock);
+        //@ let ghost s4 = *self;
+        //@ proof { lemma_join_nz(s4.cl(), old(self).cl(), other.cl()); assert(s4.wf()); }
+
+        self.apply_deferred();
+        //@ proof { lemma_merge_finish(*old(self), other, s2, s3, s4, *self, dvs); }
+    }
+//@end
+}
+
 impl<M: Hash + Clone + Eq, A: Ord + Hash + Clone> Orswot<M, A> {
 //@extract fn src/orswot.rs "Orswot" new
     pub fn new() -> /*@ (r: @*/ Self /*@ ) @*/
@@ -556,6 +703,357 @@ pub proof fn lemma_apply_add_step<M: Hash + Eq, A: Ord + Hash>(old_: Orswot<M, A
 pub proof fn lemma_add_mid_wf<M: Hash + Eq, A: Ord + Hash>(s: Orswot<M, A>)
     ensures true,
 {}
+
+/// result relation of the pass-1 closure of merge
+pub open spec fn keep1_ok<M, A: Ord>(p: (M, VClock<A>), o: Option<(M, VClock<A>)>, other_has: bool, oc: SMap<A, u64>) -> bool {
+    if other_has { o == Some(p) }
+    else if vle(p.1@, oc) { o is None }
+    else { o matches Some(q) && q.0 == p.0 && q.1@ == vsub(p.1@, oc) }
+}
+
+pub proof fn lemma_cnt_vsub<A>(x: SMap<A, u64>, c: SMap<A, u64>, a: A)
+    ensures cnt(vsub(x, c), a) == (if cnt(x, a) > cnt(c, a) { cnt(x, a) } else if x.contains_key(a) && x[a] > cnt(c, a) { x[a] } else { 0 }),
+{}
+
+pub proof fn lemma_merge_pass1<M: Hash + Eq, A: Ord + Hash>(old_: Orswot<M, A>, other: Orswot<M, A>, s1: Orswot<M, A>)
+    requires
+        old_.wf(), other.wf(), s1.cl() == old_.cl(), s1.defs() == old_.defs(),
+        forall|k: M| #[trigger] s1.ents().contains_key(k) ==> old_.ents().contains_key(k) && keep1_ok((k, old_.ents()[k]), Some((k, s1.ents()[k])), other.ents().contains_key(k), other.cl()),
+        forall|k: M| #[trigger] old_.ents().contains_key(k) && !s1.ents().contains_key(k) ==> keep1_ok((k, old_.ents()[k]), None, other.ents().contains_key(k), other.cl()),
+    ensures
+        s1.wf(),
+        forall|m: M, a: A| #![trigger cnt(s1.ec(m), a)] cnt(s1.ec(m), a) == (if other.ents().contains_key(m) { cnt(old_.ec(m), a) } else { mrg(cnt(old_.ec(m), a), 0, cnt(old_.cl(), a), cnt(other.cl(), a)) }),
+        forall|m: M| other.ents().contains_key(m) ==> #[trigger] s1.ec(m) == old_.ec(m) && s1.ents().contains_key(m) == old_.ents().contains_key(m),
+{
+    let oc = other.cl();
+    assert forall|m: M| s1.ents().contains_key(m) implies nz(#[trigger] s1.ents()[m]@) && s1.ents()[m]@ != SMap::<A, u64>::empty() by {
+        assert(old_.ents().contains_key(m));
+        let e = old_.ents()[m]@;
+        assert(nz(e) && e != SMap::<A, u64>::empty());
+        if !other.ents().contains_key(m) {
+            assert(!vle(e, oc));
+            c10_vsub_nz(e, oc);
+            // some entry of e exceeds oc, so the difference is not empty
+            let a = choose|a: A| !(cnt(e, a) <= cnt(oc, a));
+            assert(vsub(e, oc).contains_key(a));
+        }
+    }
+    assert forall|m: M, a: A| #![trigger cnt(s1.ec(m), a)] cnt(s1.ec(m), a) == (if other.ents().contains_key(m) { cnt(old_.ec(m), a) } else { mrg(cnt(old_.ec(m), a), 0, cnt(old_.cl(), a), cnt(oc, a)) }) by {
+        let e = old_.ec(m);
+        if old_.ents().contains_key(m) {
+            assert(nz(old_.ents()[m]@));
+            if s1.ents().contains_key(m) {
+                if !other.ents().contains_key(m) { lemma_cnt_vsub(e, oc, a); }
+            } else {
+                assert(keep1_ok((m, old_.ents()[m]), None::<(M, VClock<A>)>, other.ents().contains_key(m), oc));
+                assert(!other.ents().contains_key(m) && vle(e, oc));
+                assert(cnt(e, a) <= cnt(oc, a));
+            }
+        } else {
+            assert(!s1.ents().contains_key(m));
+        }
+    }
+    assert forall|m: M| other.ents().contains_key(m) implies #[trigger] s1.ec(m) == old_.ec(m) && s1.ents().contains_key(m) == old_.ents().contains_key(m) by {
+        if old_.ents().contains_key(m) {
+            if !s1.ents().contains_key(m) { assert(keep1_ok((m, old_.ents()[m]), None::<(M, VClock<A>)>, true, oc)); }
+        }
+    }
+}
+
+/// the "common" clock computed for a member present on both sides is the per-actor rule `mrg`
+pub proof fn lemma_common<A>(common: SMap<A, u64>, eo: SMap<A, u64>, es: SMap<A, u64>, cs: SMap<A, u64>, co: SMap<A, u64>)
+    requires
+        nz(eo), nz(es), nz(common),
+        exists|i1: SMap<A, u64>| #[trigger] is_join(i1, vinter(eo, es), vsub(eo, cs)) && is_join(common, i1, vsub(es, co)),
+    ensures
+        forall|a: A| #[trigger] cnt(common, a) == mrg(cnt(es, a), cnt(eo, a), cnt(cs, a), cnt(co, a)),
+{
+    let i1 = choose|i1: SMap<A, u64>| #[trigger] is_join(i1, vinter(eo, es), vsub(eo, cs)) && is_join(common, i1, vsub(es, co));
+    assert forall|a: A| #[trigger] cnt(common, a) == mrg(cnt(es, a), cnt(eo, a), cnt(cs, a), cnt(co, a)) by {
+        assert(cnt(common, a) == max64(cnt(i1, a), cnt(vsub(es, co), a)));
+        assert(cnt(i1, a) == max64(cnt(vinter(eo, es), a), cnt(vsub(eo, cs), a)));
+        lemma_cnt_vsub(es, co, a);
+        lemma_cnt_vsub(eo, cs, a);
+        if eo.contains_key(a) { assert(eo[a] > 0); }
+        if es.contains_key(a) { assert(es[a] > 0); }
+    }
+}
+
+pub proof fn lemma_join_nz<A>(z: SMap<A, u64>, x: SMap<A, u64>, y: SMap<A, u64>)
+    requires is_join(z, x, y),
+    ensures true,
+{}
+
+pub proof fn lemma_merge_pass2_step<M: Hash + Eq, A: Ord + Hash>(old_: Orswot<M, A>, other: Orswot<M, A>, s1: Orswot<M, A>, pre: Orswot<M, A>, post: Orswot<M, A>, ovs: Seq<(M, VClock<A>)>, idx: int)
+    requires
+        0 <= idx < ovs.len(), pre.wf(), old_.wf(), other.wf(),
+        forall|i: int| 0 <= i < ovs.len() ==> other.ents().contains_key((#[trigger] ovs[i]).0) && other.ents()[ovs[i].0] == ovs[i].1,
+        forall|i: int, j: int| 0 <= i < j < ovs.len() ==> (#[trigger] ovs[i]).0 != (#[trigger] ovs[j]).0,
+        forall|m: M| other.ents().contains_key(m) ==> #[trigger] s1.ec(m) == old_.ec(m),
+        forall|m: M, a: A| #![trigger cnt(pre.ec(m), a)] cnt(pre.ec(m), a) == (
+            if exists|j: int| 0 <= j < idx && (#[trigger] ovs[j]).0 == m { mrg(cnt(old_.ec(m), a), cnt(other.ec(m), a), cnt(old_.cl(), a), cnt(other.cl(), a)) }
+            else { cnt(s1.ec(m), a) }),
+        post.cl() == pre.cl(), post.defs() == pre.defs(),
+        forall|m: M| #![trigger post.ents().contains_key(m)] m != ovs[idx].0 ==> (post.ents().contains_key(m) == pre.ents().contains_key(m)),
+        forall|m: M| #![trigger post.ents()[m]] m != ovs[idx].0 && post.ents().contains_key(m) ==> post.ents()[m] == pre.ents()[m],
+        forall|a: A| #[trigger] cnt(post.ec(ovs[idx].0), a) == mrg(cnt(pre.ec(ovs[idx].0), a), cnt(ovs[idx].1@, a), cnt(old_.cl(), a), cnt(other.cl(), a)),
+        post.ents().contains_key(ovs[idx].0) ==> nz(post.ents()[ovs[idx].0]@) && post.ents()[ovs[idx].0]@ != SMap::<A, u64>::empty(),
+    ensures
+        post.wf(),
+        forall|m: M, a: A| #![trigger cnt(post.ec(m), a)] cnt(post.ec(m), a) == (
+            if exists|j: int| 0 <= j < idx + 1 && (#[trigger] ovs[j]).0 == m { mrg(cnt(old_.ec(m), a), cnt(other.ec(m), a), cnt(old_.cl(), a), cnt(other.cl(), a)) }
+            else { cnt(s1.ec(m), a) }),
+{
+    let me = ovs[idx].0;
+    assert(other.ents().contains_key(me) && other.ents()[me] == ovs[idx].1);
+    assert forall|m: M, a: A| #![trigger cnt(post.ec(m), a)] cnt(post.ec(m), a) == (
+            if exists|j: int| 0 <= j < idx + 1 && (#[trigger] ovs[j]).0 == m { mrg(cnt(old_.ec(m), a), cnt(other.ec(m), a), cnt(old_.cl(), a), cnt(other.cl(), a)) }
+            else { cnt(s1.ec(m), a) }) by {
+        if m == me {
+            assert(0 <= idx < idx + 1 && ovs[idx].0 == m);
+            // not visited before: keys are distinct
+            assert(!(exists|j: int| 0 <= j < idx && (#[trigger] ovs[j]).0 == m)) by {
+                if exists|j: int| 0 <= j < idx && (#[trigger] ovs[j]).0 == m {
+                    let j = choose|j: int| 0 <= j < idx && (#[trigger] ovs[j]).0 == m;
+                    assert(ovs[j].0 != ovs[idx].0);
+                }
+            }
+            assert(cnt(pre.ec(m), a) == cnt(s1.ec(m), a));
+            assert(s1.ec(m) == old_.ec(m));
+            assert(other.ec(m) == ovs[idx].1@);
+        } else {
+            assert(post.ents().contains_key(m) == pre.ents().contains_key(m));
+            if post.ents().contains_key(m) { assert(post.ents()[m] == pre.ents()[m]); }
+            assert(post.ec(m) == pre.ec(m));
+            if exists|j: int| 0 <= j < idx + 1 && (#[trigger] ovs[j]).0 == m {
+                let j = choose|j: int| 0 <= j < idx + 1 && (#[trigger] ovs[j]).0 == m;
+                assert(j < idx);
+            }
+        }
+    }
+    assert forall|m: M| post.ents().contains_key(m) implies nz(#[trigger] post.ents()[m]@) && post.ents()[m]@ != SMap::<A, u64>::empty() by {
+        if m != me { assert(pre.ents().contains_key(m)); assert(post.ents()[m] == pre.ents()[m]); }
+    }
+}
+
+pub proof fn lemma_merge_pass2_done<M: Hash + Eq, A: Ord + Hash>(old_: Orswot<M, A>, other: Orswot<M, A>, s1: Orswot<M, A>, s2: Orswot<M, A>, ovs: Seq<(M, VClock<A>)>)
+    requires
+        forall|k: M| other.ents().contains_key(k) ==> exists|i: int| 0 <= i < ovs.len() && (#[trigger] ovs[i]).0 == k,
+        forall|i: int| 0 <= i < ovs.len() ==> other.ents().contains_key((#[trigger] ovs[i]).0),
+        forall|m: M, a: A| #![trigger cnt(s1.ec(m), a)] cnt(s1.ec(m), a) == (if other.ents().contains_key(m) { cnt(old_.ec(m), a) } else { mrg(cnt(old_.ec(m), a), 0, cnt(old_.cl(), a), cnt(other.cl(), a)) }),
+        forall|m: M, a: A| #![trigger cnt(s2.ec(m), a)] cnt(s2.ec(m), a) == (
+            if exists|j: int| 0 <= j < ovs.len() && (#[trigger] ovs[j]).0 == m { mrg(cnt(old_.ec(m), a), cnt(other.ec(m), a), cnt(old_.cl(), a), cnt(other.cl(), a)) }
+            else { cnt(s1.ec(m), a) }),
+    ensures
+        forall|m: M, a: A| #![trigger cnt(s2.ec(m), a)] cnt(s2.ec(m), a) == mrg(cnt(old_.ec(m), a), cnt(other.ec(m), a), cnt(old_.cl(), a), cnt(other.cl(), a)),
+{
+    assert forall|m: M, a: A| #![trigger cnt(s2.ec(m), a)] cnt(s2.ec(m), a) == mrg(cnt(old_.ec(m), a), cnt(other.ec(m), a), cnt(old_.cl(), a), cnt(other.cl(), a)) by {
+        if other.ents().contains_key(m) {
+            let i = choose|i: int| 0 <= i < ovs.len() && (#[trigger] ovs[i]).0 == m;
+        } else {
+            assert(!(exists|j: int| 0 <= j < ovs.len() && (#[trigger] ovs[j]).0 == m));
+            assert(cnt(s2.ec(m), a) == cnt(s1.ec(m), a));
+            assert(other.ec(m) == SMap::<A, u64>::empty());
+        }
+    }
+}
+
+pub proof fn lemma_merge_pass3_step<M: Hash + Eq, A: Ord + Hash>(old_: Orswot<M, A>, other: Orswot<M, A>, s2: Orswot<M, A>, pre: Orswot<M, A>, post: Orswot<M, A>, dvs: Seq<(VClock<A>, HashSet<M>)>, idx: int)
+    requires
+        0 <= idx < dvs.len(), pre.wf(), post.wf(), post.cl() == pre.cl(), pre.cl() == old_.cl(),
+        forall|i: int| 0 <= i < dvs.len() ==> other.defs().contains_key((#[trigger] dvs[i]).0) && other.defs()[dvs[i].0] == dvs[i].1,
+        forall|i: int, j: int| 0 <= i < j < dvs.len() ==> (#[trigger] dvs[i]).0 != (#[trigger] dvs[j]).0,
+        forall|m: M, a: A| #![trigger cnt(pre.ec(m), a)] cnt(pre.ec(m), a) == (if covered_upto(dvs, idx, m, a, cnt(s2.ec(m), a)) { 0 } else { cnt(s2.ec(m), a) }),
+        forall|k: VClock<A>| #![trigger pre.defs().contains_key(k)] pre.defs().contains_key(k) <==> (old_.defs().contains_key(k) || exists|j: int| 0 <= j < idx && (#[trigger] dvs[j]).0 == k && !vle(k@, pre.cl())),
+        forall|k: VClock<A>| #![trigger pre.dm(k)] pre.dm(k) == old_.dm(k).union(if exists|j: int| 0 <= j < idx && (#[trigger] dvs[j]).0 == k && !vle(k@, pre.cl()) { other.dm(k) } else { SSet::<M>::empty() }),
+        // apply_rm(dvs[idx].1, dvs[idx].0)
+        forall|m: M| #[trigger] post.ec(m) == (if dvs[idx].1@.contains(m) { vsub(pre.ec(m), dvs[idx].0@) } else { pre.ec(m) }),
+        post.defs() == (if vle(dvs[idx].0@, pre.cl()) { pre.defs() } else { pre.defs().insert(dvs[idx].0, post.defs()[dvs[idx].0]) }),
+        !vle(dvs[idx].0@, pre.cl()) ==> post.defs().contains_key(dvs[idx].0) && post.defs()[dvs[idx].0]@ == pre.dm(dvs[idx].0).union(dvs[idx].1@),
+    ensures
+        forall|m: M, a: A| #![trigger cnt(post.ec(m), a)] cnt(post.ec(m), a) == (if covered_upto(dvs, idx + 1, m, a, cnt(s2.ec(m), a)) { 0 } else { cnt(s2.ec(m), a) }),
+        forall|k: VClock<A>| #![trigger post.defs().contains_key(k)] post.defs().contains_key(k) <==> (old_.defs().contains_key(k) || exists|j: int| 0 <= j < idx + 1 && (#[trigger] dvs[j]).0 == k && !vle(k@, post.cl())),
+        forall|k: VClock<A>| #![trigger post.dm(k)] post.dm(k) == old_.dm(k).union(if exists|j: int| 0 <= j < idx + 1 && (#[trigger] dvs[j]).0 == k && !vle(k@, post.cl()) { other.dm(k) } else { SSet::<M>::empty() }),
+{
+    let kc = dvs[idx].0;
+    let ks = dvs[idx].1@;
+    assert(other.defs().contains_key(kc) && other.defs()[kc] == dvs[idx].1);
+    assert(other.dm(kc) == ks);
+    assert forall|m: M, a: A| #![trigger cnt(post.ec(m), a)] cnt(post.ec(m), a) == (if covered_upto(dvs, idx + 1, m, a, cnt(s2.ec(m), a)) { 0 } else { cnt(s2.ec(m), a) }) by {
+        let n = cnt(s2.ec(m), a);
+        assert(cnt(pre.ec(m), a) == (if covered_upto(dvs, idx, m, a, n) { 0 } else { n }));
+        assert(post.ec(m) == (if ks.contains(m) { vsub(pre.ec(m), kc@) } else { pre.ec(m) }));
+        lemma_cnt_vsub(pre.ec(m), kc@, a);
+        if covered_upto(dvs, idx, m, a, n) {
+            let j = choose|j: int| 0 <= j < idx && (#[trigger] dvs[j]).1@.contains(m) && cnt(dvs[j].0@, a) >= n;
+            assert(0 <= j < idx + 1 && dvs[j].1@.contains(m) && cnt(dvs[j].0@, a) >= n);
+        }
+        if ks.contains(m) && cnt(kc@, a) >= n {
+            assert(0 <= idx < idx + 1 && dvs[idx].1@.contains(m) && cnt(dvs[idx].0@, a) >= n);
+        }
+        if covered_upto(dvs, idx + 1, m, a, n) && !covered_upto(dvs, idx, m, a, n) {
+            let j = choose|j: int| 0 <= j < idx + 1 && (#[trigger] dvs[j]).1@.contains(m) && cnt(dvs[j].0@, a) >= n;
+            assert(j == idx);
+        }
+    }
+    // no earlier step handled the same key
+    assert(!(exists|j: int| 0 <= j < idx && (#[trigger] dvs[j]).0 == kc && !vle(kc@, pre.cl()))) by {
+        if exists|j: int| 0 <= j < idx && (#[trigger] dvs[j]).0 == kc && !vle(kc@, pre.cl()) {
+            let j = choose|j: int| 0 <= j < idx && (#[trigger] dvs[j]).0 == kc && !vle(kc@, pre.cl());
+            assert(dvs[j].0 != dvs[idx].0);
+        }
+    }
+    assert forall|k: VClock<A>| #![trigger post.defs().contains_key(k)] post.defs().contains_key(k) <==> (old_.defs().contains_key(k) || exists|j: int| 0 <= j < idx + 1 && (#[trigger] dvs[j]).0 == k && !vle(k@, post.cl())) by {
+        if post.defs().contains_key(k) {
+            if k == kc && !vle(kc@, pre.cl()) {
+                assert(0 <= idx < idx + 1 && dvs[idx].0 == k && !vle(k@, post.cl()));
+            } else {
+                assert(pre.defs().contains_key(k));
+                if !old_.defs().contains_key(k) {
+                    let j = choose|j: int| 0 <= j < idx && (#[trigger] dvs[j]).0 == k && !vle(k@, pre.cl());
+                    assert(0 <= j < idx + 1 && dvs[j].0 == k && !vle(k@, post.cl()));
+                }
+            }
+        }
+        if old_.defs().contains_key(k) { assert(pre.defs().contains_key(k)); }
+        if exists|j: int| 0 <= j < idx + 1 && (#[trigger] dvs[j]).0 == k && !vle(k@, post.cl()) {
+            let j = choose|j: int| 0 <= j < idx + 1 && (#[trigger] dvs[j]).0 == k && !vle(k@, post.cl());
+            if j < idx { assert(pre.defs().contains_key(k)); } else { assert(k == kc); }
+        }
+    }
+    assert forall|k: VClock<A>| #![trigger post.dm(k)] post.dm(k) == old_.dm(k).union(if exists|j: int| 0 <= j < idx + 1 && (#[trigger] dvs[j]).0 == k && !vle(k@, post.cl()) { other.dm(k) } else { SSet::<M>::empty() }) by {
+        let pd = pre.dm(k);
+        assert(pd == old_.dm(k).union(if exists|j: int| 0 <= j < idx && (#[trigger] dvs[j]).0 == k && !vle(k@, pre.cl()) { other.dm(k) } else { SSet::<M>::empty() }));
+        if k == kc {
+            if !vle(kc@, pre.cl()) {
+                assert(0 <= idx < idx + 1 && dvs[idx].0 == k && !vle(k@, post.cl()));
+                assert(post.dm(k) == pre.dm(k).union(ks));
+                assert(pre.dm(k) =~= old_.dm(k).union(SSet::<M>::empty()));
+                assert(old_.dm(k).union(SSet::<M>::empty()).union(ks) =~= old_.dm(k).union(ks));
+            } else {
+                assert(post.dm(k) == pre.dm(k));
+                assert(!(exists|j: int| 0 <= j < idx + 1 && (#[trigger] dvs[j]).0 == k && !vle(k@, post.cl()))) by {
+                    if exists|j: int| 0 <= j < idx + 1 && (#[trigger] dvs[j]).0 == k && !vle(k@, post.cl()) {
+                        let j = choose|j: int| 0 <= j < idx + 1 && (#[trigger] dvs[j]).0 == k && !vle(k@, post.cl());
+                    }
+                }
+            }
+        } else {
+            assert(post.defs().contains_key(k) == pre.defs().contains_key(k));
+            if post.defs().contains_key(k) { assert(post.defs()[k] == pre.defs()[k]); }
+            assert(post.dm(k) == pre.dm(k));
+            if exists|j: int| 0 <= j < idx + 1 && (#[trigger] dvs[j]).0 == k && !vle(k@, post.cl()) {
+                let j = choose|j: int| 0 <= j < idx + 1 && (#[trigger] dvs[j]).0 == k && !vle(k@, post.cl());
+                assert(j < idx);
+                assert(0 <= j < idx && dvs[j].0 == k && !vle(k@, pre.cl()));
+            }
+            if exists|j: int| 0 <= j < idx && (#[trigger] dvs[j]).0 == k && !vle(k@, pre.cl()) {
+                let j = choose|j: int| 0 <= j < idx && (#[trigger] dvs[j]).0 == k && !vle(k@, pre.cl());
+                assert(0 <= j < idx + 1 && dvs[j].0 == k && !vle(k@, post.cl()));
+            }
+        }
+    }
+}
+
+pub proof fn lemma_merge_finish<M: Hash + Eq, A: Ord + Hash>(old_: Orswot<M, A>, other: Orswot<M, A>, s2: Orswot<M, A>, s3: Orswot<M, A>, s4: Orswot<M, A>, fin: Orswot<M, A>, dvs: Seq<(VClock<A>, HashSet<M>)>)
+    requires
+        s3.cl() == old_.cl(), s4.ents() == s3.ents(), s4.defs() == s3.defs(), is_join(s4.cl(), old_.cl(), other.cl()), fin.cl() == s4.cl(),
+        forall|i: int| 0 <= i < dvs.len() ==> other.defs().contains_key((#[trigger] dvs[i]).0) && other.defs()[dvs[i].0] == dvs[i].1,
+        forall|k: VClock<A>| other.defs().contains_key(k) ==> exists|i: int| 0 <= i < dvs.len() && (#[trigger] dvs[i]).0 == k,
+        forall|m: M, a: A| #![trigger cnt(s2.ec(m), a)] cnt(s2.ec(m), a) == mrg(cnt(old_.ec(m), a), cnt(other.ec(m), a), cnt(old_.cl(), a), cnt(other.cl(), a)),
+        forall|m: M, a: A| #![trigger cnt(s3.ec(m), a)] cnt(s3.ec(m), a) == (if covered_upto(dvs, dvs.len() as int, m, a, cnt(s2.ec(m), a)) { 0 } else { cnt(s2.ec(m), a) }),
+        forall|k: VClock<A>| #![trigger s3.defs().contains_key(k)] s3.defs().contains_key(k) <==> (old_.defs().contains_key(k) || exists|j: int| 0 <= j < dvs.len() && (#[trigger] dvs[j]).0 == k && !vle(k@, s3.cl())),
+        forall|k: VClock<A>| #![trigger s3.dm(k)] s3.dm(k) == old_.dm(k).union(if exists|j: int| 0 <= j < dvs.len() && (#[trigger] dvs[j]).0 == k && !vle(k@, s3.cl()) { other.dm(k) } else { SSet::<M>::empty() }),
+        // apply_deferred on s4
+        forall|m: M, a: A| #![trigger cnt(fin.ec(m), a)] cnt(fin.ec(m), a) == (if covered_by(s4.defs(), m, a, cnt(s4.ec(m), a)) { 0 } else { cnt(s4.ec(m), a) }),
+        forall|k: VClock<A>| #![trigger fin.defs().contains_key(k)] fin.defs().contains_key(k) <==> (s4.defs().contains_key(k) && !vle(k@, s4.cl())),
+        forall|k: VClock<A>| #![trigger fin.defs()[k]] fin.defs().contains_key(k) ==> fin.defs()[k]@ == s4.defs()[k]@,
+    ensures
+        forall|m: M, a: A| #![trigger cnt(fin.ec(m), a)] cnt(fin.ec(m), a) == ({
+            let x = mrg(cnt(old_.ec(m), a), cnt(other.ec(m), a), cnt(old_.cl(), a), cnt(other.cl(), a));
+            if covered_by(old_.defs(), m, a, x) || covered_by(other.defs(), m, a, x) { 0 } else { x } }),
+        forall|k: VClock<A>| #![trigger fin.defs().contains_key(k)] fin.defs().contains_key(k) <==> ((old_.defs().contains_key(k) || other.defs().contains_key(k)) && !vle(k@, fin.cl())),
+        forall|k: VClock<A>| #![trigger fin.defs()[k]] fin.defs().contains_key(k) ==> fin.defs()[k]@ == old_.dm(k).union(other.dm(k)),
+{
+    let jc = s4.cl();
+    // vle(k, old.cl) ==> vle(k, join)
+    assert forall|k: VClock<A>| vle(k@, old_.cl()) implies vle(k@, jc) by {
+        assert forall|a: A| cnt(k@, a) <= cnt(jc, a) by { assert(cnt(jc, a) == max64(cnt(old_.cl(), a), cnt(other.cl(), a))); assert(cnt(k@, a) <= cnt(old_.cl(), a)); }
+    }
+    assert forall|m: M, a: A| #![trigger cnt(fin.ec(m), a)] cnt(fin.ec(m), a) == ({
+            let x = mrg(cnt(old_.ec(m), a), cnt(other.ec(m), a), cnt(old_.cl(), a), cnt(other.cl(), a));
+            if covered_by(old_.defs(), m, a, x) || covered_by(other.defs(), m, a, x) { 0 } else { x } }) by {
+        let x = mrg(cnt(old_.ec(m), a), cnt(other.ec(m), a), cnt(old_.cl(), a), cnt(other.cl(), a));
+        assert(cnt(s2.ec(m), a) == x);
+        assert(s4.ec(m) == s3.ec(m));
+        let y = cnt(s3.ec(m), a);
+        assert(y == (if covered_upto(dvs, dvs.len() as int, m, a, x) { 0 } else { x }));
+        if covered_by(other.defs(), m, a, x) {
+            let k = choose|k: VClock<A>| #[trigger] other.defs().contains_key(k) && other.defs()[k]@.contains(m) && cnt(k@, a) >= x;
+            let i = choose|i: int| 0 <= i < dvs.len() && (#[trigger] dvs[i]).0 == k;
+            assert(dvs[i].1@.contains(m) && cnt(dvs[i].0@, a) >= x);
+            assert(y == 0);
+        } else {
+            if covered_upto(dvs, dvs.len() as int, m, a, x) {
+                let j = choose|j: int| 0 <= j < dvs.len() && (#[trigger] dvs[j]).1@.contains(m) && cnt(dvs[j].0@, a) >= x;
+                assert(other.defs().contains_key(dvs[j].0) && other.defs()[dvs[j].0]@.contains(m));
+                assert(false);
+            }
+            assert(y == x);
+            if covered_by(old_.defs(), m, a, x) {
+                let k = choose|k: VClock<A>| #[trigger] old_.defs().contains_key(k) && old_.defs()[k]@.contains(m) && cnt(k@, a) >= x;
+                assert(s3.defs().contains_key(k));
+                assert(s3.dm(k).contains(m)) by { assert(old_.dm(k).contains(m)); }
+                assert(s4.defs().contains_key(k) && s4.defs()[k]@.contains(m) && cnt(k@, a) >= y);
+            } else {
+                if covered_by(s4.defs(), m, a, y) {
+                    let k = choose|k: VClock<A>| #[trigger] s4.defs().contains_key(k) && s4.defs()[k]@.contains(m) && cnt(k@, a) >= y;
+                    assert(s3.dm(k).contains(m));
+                    if old_.dm(k).contains(m) {
+                        assert(old_.defs().contains_key(k) && old_.defs()[k]@.contains(m));
+                    } else {
+                        assert(other.dm(k).contains(m));
+                        assert(other.defs().contains_key(k) && other.defs()[k]@.contains(m));
+                    }
+                    assert(false);
+                }
+            }
+        }
+    }
+    assert forall|k: VClock<A>| #![trigger fin.defs().contains_key(k)] fin.defs().contains_key(k) <==> ((old_.defs().contains_key(k) || other.defs().contains_key(k)) && !vle(k@, fin.cl())) by {
+        if fin.defs().contains_key(k) {
+            assert(s3.defs().contains_key(k));
+            if !old_.defs().contains_key(k) {
+                let j = choose|j: int| 0 <= j < dvs.len() && (#[trigger] dvs[j]).0 == k && !vle(k@, s3.cl());
+                assert(other.defs().contains_key(dvs[j].0));
+            }
+        }
+        if (old_.defs().contains_key(k) || other.defs().contains_key(k)) && !vle(k@, fin.cl()) {
+            if !old_.defs().contains_key(k) {
+                let i = choose|i: int| 0 <= i < dvs.len() && (#[trigger] dvs[i]).0 == k;
+                assert(!vle(k@, old_.cl()));
+                assert(0 <= i < dvs.len() && dvs[i].0 == k && !vle(k@, s3.cl()));
+            }
+            assert(s3.defs().contains_key(k));
+        }
+    }
+    assert forall|k: VClock<A>| #![trigger fin.defs()[k]] fin.defs().contains_key(k) implies fin.defs()[k]@ == old_.dm(k).union(other.dm(k)) by {
+        assert(s4.defs().contains_key(k) && !vle(k@, jc));
+        assert(!vle(k@, old_.cl()));
+        assert(fin.defs()[k]@ == s3.dm(k));
+        if other.defs().contains_key(k) {
+            let i = choose|i: int| 0 <= i < dvs.len() && (#[trigger] dvs[i]).0 == k;
+            assert(0 <= i < dvs.len() && dvs[i].0 == k && !vle(k@, s3.cl()));
+        } else {
+            assert(other.dm(k) == SSet::<M>::empty());
+            assert(old_.dm(k).union(SSet::<M>::empty()) =~= old_.dm(k));
+            if exists|j: int| 0 <= j < dvs.len() && (#[trigger] dvs[j]).0 == k && !vle(k@, s3.cl()) {
+                let j = choose|j: int| 0 <= j < dvs.len() && (#[trigger] dvs[j]).0 == k && !vle(k@, s3.cl());
+                assert(other.defs().contains_key(dvs[j].0));
+            }
+        }
+    }
+}
 
 /// vsub of an nz clock is nz
 pub proof fn c10_vsub_nz<A>(x: SMap<A, u64>, c: SMap<A, u64>)
